@@ -158,6 +158,12 @@ def vertexLonLat (d : Nat) (cx cy : α) (dir : Nat) : Option (α × α) :=
 def vertex (cfg : Cfg) (d hash dir : Nat) : Option (α × α) :=
   (centerOfProjectedCell (α := α) cfg d hash).bind fun c => vertexLonLat d c.1 c.2 dir
 
+/-- `vertices_map(hash, directions)`: the centre is projected once, then `vertex_lonlat` for each requested direction in
+    the order S, E, N, W (`mask` bit `k` = direction `k` requested); an entry per direction, `none` = not requested -/
+def verticesMap (cfg : Cfg) (d hash mask : Nat) : Option (List (Option (α × α))) :=
+  (centerOfProjectedCell (α := α) cfg d hash).bind fun c =>
+    [0, 1, 2, 3].mapM fun k => if mask.testBit k then (vertexLonLat d c.1 c.2 k).map some else some none
+
 /-- `vertices`: S, E, N, W (only W goes through `ensures_x_is_positive`) -/
 def vertices (cfg : Cfg) (d hash : Nat) : Option (List (α × α)) :=
   (centerOfProjectedCell (α := α) cfg d hash).bind fun c =>
